@@ -77,6 +77,7 @@ def main():
     ap.add_argument("--skip-suite", action="store_true")
     ap.add_argument("--tier", default="quick")
     ap.add_argument("--needs", default="")
+    ap.add_argument("--confirm-only", action="store_true", help="only the scratch-worktree confirmation (demo both ways + suite); run --recheck afterwards")
     ap.add_argument("--recheck", action="store_true", help="only re-run the checks against the stored patch and update meta.json")
     a = ap.parse_args()
     if a.recheck:
@@ -116,6 +117,14 @@ def main():
             meta["ran"].append("repository test suite with the patch in the scratch worktree (%.0f s): %s" % (time.time() - t, out.strip().splitlines()[-1] if out.strip() else ""))
     finally:
         sh(["git", "-C", "/repo", "worktree", "remove", "--force", wt])
+    if a.confirm_only:
+        meta["checks"] = {}
+        shutil.copy(patch, os.path.join(dst, "patch.diff"))
+        shutil.copy(demo, os.path.join(dst, "demo.py"))
+        meta["detected_by"] = []
+        json.dump(meta, open(os.path.join(dst, "meta.json"), "w"), indent=1)
+        print(a.sid, json.dumps(meta["confirmed"])[:600])
+        return
     # now the checks against /repo itself
     rc, out = sh(["git", "-C", "/repo", "status", "--porcelain"])
     assert out.strip() == "", "/repo is not clean: %s" % out
